@@ -1208,3 +1208,11 @@ PROPS["C06"]["claim"] = PROPS["C06"]["claim"] + " In-place overwrite, unbounded 
 PROPS["C06"]["does_not_cover"] = [x for x in PROPS["C06"]["does_not_cover"] if "composition over histories" not in x] + ["composition over histories of overwrites (each step is proved against the chain format; the reader side for_parts is bounded, U6-R)"]
 PROPS["C14"]["verus_units"] = list(PROPS["C14"].get("verus_units", [])) + ["chain_replace"]
 PROPS["C14"]["claim"] = PROPS["C14"]["claim"] + " An in-place overwrite leaves no orphan part: the surplus tail of the old chain is released, the reused slots stay linked (Verus, unit chain_replace)."
+
+# ---------------------------------------------------------------- U83 (Verus: ValueTable::clear_chain, unbounded)
+UNIT_META["chain_clear"] = {"functions": ["table::ValueTable::clear_chain"],
+                            "assumes": ["ValueTable::read_next_part (the link decoded from a slot: U6-R) and ValueTable::clear_slot (unit free_list: the slot becomes a tombstone and free, nothing else is written) are contracts; the function takes `&mut self` and a ghost parameter naming the position of the given part in the chain (signature rewrite)",
+                                        "precondition: from the given part on the chain is proper in the current view (distinct slots, each linking to the next, the last to nothing); termination is proved on such a chain -- on a cyclic chain the real loop does not terminate (not a claim)"]}
+for _p in ("C06", "C14"):
+    PROPS[_p]["verus_units"] = list(PROPS[_p].get("verus_units", [])) + ["chain_clear"]
+PROPS["C06"]["claim"] = PROPS["C06"]["claim"] + " Releasing a chain (Verus, any chain length): ValueTable::clear_chain turns every part from the given one to the end of the chain into a tombstone that can be handed out again, marks the header dirty, writes no slot outside that tail -- also when it stops on a read error -- and terminates on a proper chain."
